@@ -467,4 +467,470 @@ theorem complete_req_aux :
         · exact Or.inr (hc.mono hmr)
       · exact ih (Or.inr h)
 
+/-! ### poll -/
+
+theorem pollAll_done_owedE (fs : List Fut) : ∀ (S : Store) (fs' : List Fut) (S' : Store) (vs : List Val),
+    pollAll fs S = (fs', S', .done vs) → Fut.owedEL fs' = [] := by
+  induction fs with
+  | nil => intro S fs' S' vs h; rw [pollAll_nil] at h; cases h; rfl
+  | cons f rest ih =>
+    intro S fs' S' vs h
+    rcases hp : poll f S with ⟨f', S1, o⟩
+    cases o with
+    | none =>
+      rcases hp2 : pollAll rest S1 with ⟨rest', S2, p⟩
+      rw [pollAll_cons_none hp hp2] at h
+      cases p <;> simp at h
+    | some r =>
+      cases r with
+      | err e => rw [pollAll_cons_err hp] at h; cases h
+      | ok v =>
+        rcases hp2 : pollAll rest S1 with ⟨rest', S2, p⟩
+        rw [pollAll_cons_ok hp hp2] at h
+        cases p with
+        | done vs' =>
+          simp only [Prod.mk.injEq] at h
+          obtain ⟨rfl, _, _⟩ := h
+          have hr := poll_some_ready f S f' S1 _ hp
+          simp [Fut.owedEL, hr, Fut.owedE, ih S1 rest' S2 vs' hp2]
+        | failed e => simp at h
+        | pending => simp at h
+
+theorem applyK_req (nn : Bool) (c : Comp) (path : Path) (r : Res) (S : Store) (hr : r.isOk = true) :
+    ∀ e ∈ Spec.reqC nn c path, e ∈ (applyK nn c path r S).1.owedE ∨ Rep (applyK nn c path r S).2.log e := by
+  cases r with
+  | ok v => simp only [applyK]; exact complete_req_aux.1 nn c path S
+  | err e => simp [Res.isOk] at hr
+
+/-- Polling never loses a required error: it stays owed or gets reported. -/
+theorem poll_req_aux :
+    (∀ f S, ∀ e ∈ f.owedE, e ∈ (poll f S).1.owedE ∨ Rep (poll f S).2.1.log e) ∧
+    (∀ fs S, ∀ e ∈ Fut.owedEL fs, e ∈ Fut.owedEL (pollAll fs S).1 ∨ Rep (pollAll fs S).2.1.log e) := by
+  apply poll_induct'
+    (P1 := fun f S => ∀ e ∈ f.owedE, e ∈ (poll f S).1.owedE ∨ Rep (poll f S).2.1.log e)
+    (P2 := fun fs S => ∀ e ∈ Fut.owedEL fs, e ∈ Fut.owedEL (pollAll fs S).1 ∨ Rep (pollAll fs S).2.1.log e)
+  · intro r S e h; simp [Fut.owedE] at h
+  · intro id res S e h; simp [Fut.owedE] at h
+  · -- map
+    intro fn g S ih e he
+    have hres := poll_result_out g S
+    have ho := poll_out g S
+    have hcert := poll_cert_aux.1 g S
+    rcases hp : poll g S with ⟨g', S1, o⟩
+    rw [hp] at hres ho hcert
+    simp only at ho
+    cases fn with
+    | catchError =>
+      simp only [Fut.owedE] at he
+      by_cases hok : g.out.isOk = true
+      · simp only [hok, if_true] at he
+        have ih := ih e he; rw [hp] at ih
+        cases o with
+        | some r =>
+          rw [poll_map_some hp]
+          have hr := poll_some_ready g S g' S1 r hp
+          rcases ih with h | h
+          · simp [hr, Fut.owedE] at h
+          · exact Or.inr (h.mono (applyMap_mono _ _ _))
+        | none =>
+          rw [poll_map_none hp]
+          simp only [Fut.owedE, ho, hok, if_true]; exact ih
+      · have hok' : g.out.isOk = false := by simpa using hok
+        simp only [hok', Bool.false_eq_true, if_false] at he
+        obtain ⟨c1, c2⟩ := hcert e he
+        cases o with
+        | some r =>
+          rw [poll_map_some hp]
+          cases r with
+          | ok v => have := hres _ rfl; rw [← this] at hok'; simp [Res.out, Out.isOk] at hok'
+          | err e' =>
+            have := c2 e' rfl; subst this
+            exact Or.inr (by simp only [applyMap]; exact Rep.push_error S1 e')
+        | none =>
+          rw [poll_map_none hp]
+          simp only [Fut.owedE, ho, hok', Bool.false_eq_true, if_false]
+          exact Or.inl (c1 rfl)
+    | nonNull e0 =>
+      have ih := ih e (by simpa [Fut.owedE] using he); rw [hp] at ih
+      cases o with
+      | some r =>
+        rw [poll_map_some hp]
+        have hr := poll_some_ready g S g' S1 r hp
+        rcases ih with h | h
+        · simp [hr, Fut.owedE] at h
+        · exact Or.inr (h.mono (applyMap_mono _ _ _))
+      | none => rw [poll_map_none hp]; simpa [Fut.owedE] using ih
+    | tap t =>
+      have ih := ih e (by simpa [Fut.owedE] using he); rw [hp] at ih
+      cases o with
+      | some r =>
+        rw [poll_map_some hp]
+        have hr := poll_some_ready g S g' S1 r hp
+        rcases ih with h | h
+        · simp [hr, Fut.owedE] at h
+        · exact Or.inr (h.mono (applyMap_mono _ _ _))
+      | none => rw [poll_map_none hp]; simpa [Fut.owedE] using ih
+  · intro fn g S ih e he
+    have ih := ih e (by simpa [Fut.owedE] using he)
+    rcases hp : poll g S with ⟨g', S1, o⟩
+    rw [hp] at ih
+    cases o with
+    | some r =>
+      have hr := poll_some_ready g S g' S1 r hp
+      have hrep : Rep S1.log e := by
+        rcases ih with h | h
+        · simp [hr, Fut.owedE] at h
+        · exact h
+      cases r with
+      | ok v => rw [poll_mapOk_ok hp]; exact Or.inr (hrep.mono (applyOk_mono _ _ _))
+      | err e' => rw [poll_mapOk_err hp]; exact Or.inr hrep
+    | none => rw [poll_mapOk_none hp]; simpa [Fut.owedE] using ih
+  · intro g S ih e he
+    have ih := ih e (by simpa [Fut.owedE] using he)
+    rcases hp : poll g S with ⟨g', S1, o⟩
+    rw [hp] at ih
+    cases o with
+    | some r =>
+      rw [poll_mapOkToAny_some hp]
+      have hr := poll_some_ready g S g' S1 r hp
+      rcases ih with h | h
+      · simp [hr, Fut.owedE] at h
+      · exact Or.inr h
+    | none => rw [poll_mapOkToAny_none hp]; simpa [Fut.owedE] using ih
+  · intro v g S ih e he
+    have ih := ih e (by simpa [Fut.owedE] using he)
+    rcases hp : poll g S with ⟨g', S1, o⟩
+    rw [hp] at ih
+    cases o with
+    | some r =>
+      have hr := poll_some_ready g S g' S1 r hp
+      have hrep : Rep S1.log e := by
+        rcases ih with h | h
+        · simp [hr, Fut.owedE] at h
+        · exact h
+      cases r with
+      | ok u => rw [poll_mapOkValue_ok hp]; exact Or.inr hrep
+      | err e' => rw [poll_mapOkValue_err hp]; exact Or.inr hrep
+    | none => rw [poll_mapOkValue_none hp]; simpa [Fut.owedE] using ih
+  · intro nn c path g S ih ihk e he
+    have hres := poll_result_out g S
+    have ho := poll_out g S
+    rcases hp : poll g S with ⟨g', S1, o⟩
+    rw [hp] at hres ho
+    simp only [Fut.owedE] at he
+    by_cases hok : g.out.isOk = true
+    · simp only [hok, if_true] at he
+      cases o with
+      | none =>
+        rw [poll_thenK_wait hp]
+        simp only at ho
+        exact Or.inl (by simpa [Fut.owedE, ho, hok] using he)
+      | some r =>
+        have hrok : r.isOk = true := by rw [← out_isOk_of_res (hres r rfl)]; exact hok
+        have hk := applyK_req nn c path r S1 hrok e he
+        have ihk := ihk g' S1 r hp
+        have hmono := poll_mono (applyK nn c path r S1).1 (applyK nn c path r S1).2
+        rcases hp2 : poll (applyK nn c path r S1).1 (applyK nn c path r S1).2 with ⟨t', S3, o2⟩
+        rw [hp2] at ihk hmono
+        have hfinal : e ∈ t'.owedE ∨ Rep S3.log e := by
+          rcases hk with h | h
+          · exact ihk e h
+          · exact Or.inr (h.mono hmono)
+        cases o2 with
+        | some r' =>
+          rw [poll_thenK_fire_some hp hp2]
+          have hr := poll_some_ready _ _ t' S3 r' hp2
+          rcases hfinal with h | h
+          · simp [hr, Fut.owedE] at h
+          · exact Or.inr h
+        | none => rw [poll_thenK_fire_none hp hp2]; simpa [Fut.owedE] using hfinal
+    · simp [hok] at he
+  · intro nn c path g t S ih e he
+    have ih := ih e (by simpa [Fut.owedE] using he)
+    rcases hp : poll t S with ⟨t', S1, o⟩
+    rw [hp] at ih
+    cases o with
+    | some r =>
+      rw [poll_thenK_cont_some hp]
+      have hr := poll_some_ready t S t' S1 r hp
+      rcases ih with h | h
+      · simp [hr, Fut.owedE] at h
+      · exact Or.inr h
+    | none => rw [poll_thenK_cont_none hp]; simpa [Fut.owedE] using ih
+  · intro tag a b g S _ _ e h; simp [Fut.owedE] at h
+  · intro tag a b g t S _ e h; simp [Fut.owedE] at h
+  · intro fs S ih e he
+    have hout := poll_out_aux.2 fs S
+    rcases hp : pollAll fs S with ⟨fs', S1, p⟩
+    rw [hp] at hout
+    simp only [Fut.owedE] at he
+    by_cases hok : (Fut.outs fs).isSome = true
+    · simp only [hok, if_true] at he
+      have ih := ih e he; rw [hp] at ih
+      cases p with
+      | failed e0 => have := hout.2.1 e0 rfl; rw [this] at hok; simp at hok
+      | done vs =>
+        rw [poll_join_done hp]
+        have := pollAll_done_owedE fs S fs' S1 vs hp
+        rcases ih with h | h
+        · simp [this] at h
+        · exact Or.inr h
+      | pending =>
+        rw [poll_join_pending hp]
+        simp only [Fut.owedE, hout.1, hok, if_true]; exact ih
+    · simp [hok] at he
+  · intro fs S ih e he
+    have hout := poll_out_aux.2 fs S
+    rcases hp : pollAll fs S with ⟨fs', S1, p⟩
+    rw [hp] at hout
+    simp only [Fut.owedE] at he
+    by_cases hok : (Fut.outs fs).isSome = true
+    · simp only [hok, if_true] at he
+      have ih := ih e he; rw [hp] at ih
+      cases p with
+      | failed e0 => have := hout.2.1 e0 rfl; rw [this] at hok; simp at hok
+      | done vs =>
+        rw [poll_after_done hp]
+        have := pollAll_done_owedE fs S fs' S1 vs hp
+        rcases ih with h | h
+        · simp [this] at h
+        · exact Or.inr h
+      | pending =>
+        rw [poll_after_pending hp]
+        simp only [Fut.owedE, hout.1, hok, if_true]; exact ih
+    · simp [hok] at he
+  · intro S e h; simp [Fut.owedEL] at h
+  · intro f rest S ih ihr e he
+    simp only [Fut.owedEL, List.mem_append] at he
+    rcases hp : poll f S with ⟨f', S1, o⟩
+    have ih := fun h => ih e h
+    rw [hp] at ih
+    have hcombine : ∀ (rest' : List Fut) (S2 : Store), Mono S1 S2 →
+        (e ∈ Fut.owedEL rest → e ∈ Fut.owedEL rest' ∨ Rep S2.log e) →
+        e ∈ Fut.owedEL (f' :: rest') ∨ Rep S2.log e := by
+      intro rest' S2 hm hr
+      simp only [Fut.owedEL, List.mem_append]
+      rcases he with h | h
+      · rcases ih h with h | h
+        · exact Or.inl (Or.inl h)
+        · exact Or.inr (h.mono hm)
+      · rcases hr h with h | h
+        · exact Or.inl (Or.inr h)
+        · exact Or.inr h
+    cases o with
+    | some r =>
+      cases r with
+      | err e' =>
+        rw [pollAll_cons_err hp]
+        exact hcombine rest S1 (Mono.refl _) (fun h => Or.inl h)
+      | ok v =>
+        have ihr := ihr f' S1 _ hp (by intro e h; cases h) e
+        have hm := poll_mono_aux.2 rest S1
+        rcases hp2 : pollAll rest S1 with ⟨rest', S2, p⟩
+        rw [hp2] at ihr hm
+        rw [pollAll_cons_ok hp hp2]; exact hcombine rest' S2 hm ihr
+    | none =>
+      have ihr := ihr f' S1 _ hp (by intro e h; cases h) e
+      have hm := poll_mono_aux.2 rest S1
+      rcases hp2 : pollAll rest S1 with ⟨rest', S2, p⟩
+      rw [hp2] at ihr hm
+      rw [pollAll_cons_none hp hp2]; exact hcombine rest' S2 hm ihr
+
+/-! ### wait and whole requests -/
+
+theorem idleRound_rep (mask : Option Nat) (S : Store) (hne : S.outstanding ≠ []) (e : Err) (h : Rep S.log e) :
+    Rep (idleRound mask S).log e := by
+  obtain ⟨_, _, _, _, hlog, _⟩ := idleRound_spec mask S hne
+  simp only [Rep, hlog, errorsOf_append, List.mem_append]; exact Or.inl h
+
+theorem waitLoop_req (req : List Err) (fuel : Nat) : ∀ (f : Fut) (sched : List Nat) (S : Store),
+    (∀ e ∈ req, e ∈ f.owedE ∨ Rep S.log e) →
+    ∀ r, (waitLoop fuel f sched S).1 = .done r → ∀ e ∈ req, Rep (waitLoop fuel f sched S).2.2.log e := by
+  induction fuel with
+  | zero =>
+    intro f sched S hinv r h e he
+    have hreq := poll_req_aux.1 f S
+    have hm := poll_mono f S
+    rcases hp : poll f S with ⟨f', S1, o⟩
+    rw [hp] at hreq hm
+    cases o with
+    | none => rw [waitLoop_zero_none f f' sched S S1 hp] at h; cases h
+    | some r' =>
+      rw [waitLoop_some 0 f f' sched S S1 r' hp]
+      have hr := poll_some_ready f S f' S1 r' hp
+      rcases hinv e he with h1 | h1
+      · rcases hreq e h1 with h2 | h2
+        · simp [hr, Fut.owedE] at h2
+        · exact h2
+      · exact h1.mono hm
+  | succ fuel ih =>
+    intro f sched S hinv r h e he
+    have hreq := poll_req_aux.1 f S
+    have hm := poll_mono f S
+    rcases hp : poll f S with ⟨f', S1, o⟩
+    rw [hp] at hreq hm
+    have hinv1 : ∀ e ∈ req, e ∈ f'.owedE ∨ Rep S1.log e := fun e he => by
+      rcases hinv e he with h1 | h1
+      · exact hreq e h1
+      · exact Or.inr (h1.mono hm)
+    cases o with
+    | some r' =>
+      rw [waitLoop_some (fuel + 1) f f' sched S S1 r' hp]
+      have hr := poll_some_ready f S f' S1 r' hp
+      rcases hinv1 e he with h2 | h2
+      · simp [hr, Fut.owedE] at h2
+      · exact h2
+    | none =>
+      by_cases hne : S1.outstanding = []
+      · rw [waitLoop_succ_stuck fuel f f' sched S S1 hp hne] at h; cases h
+      · rw [waitLoop_succ_none fuel f f' sched S S1 hp hne] at h ⊢
+        exact ih f' sched.tail (idleRound sched.head? S1)
+          (fun e he => by
+            rcases hinv1 e he with h1 | h1
+            · exact Or.inl h1
+            · exact Or.inr (idleRound_rep _ _ hne e h1)) r h e he
+
+theorem query_required (rq : Request) (hq : rq.mutation = false) (hok : Spec.fieldsOk rq.fields [] = true)
+    (r : Res) (h : (execute rq).1 = .done r) : ∀ e ∈ Spec.reqF rq.fields [], Rep (execute rq).2.log e := by
+  intro e he
+  unfold execute at h ⊢
+  simp only [hq, Bool.false_eq_true, if_false] at h ⊢
+  rcases hb : execFields rq.fields [] rq.fields.length 0 [] {} with ⟨f, S1⟩
+  have hbuild := complete_req_aux.2.1 rq.fields [] rq.fields.length 0 [] {} (by simp [Fut.outs]) hok
+  rw [hb] at h hbuild
+  simp only at h ⊢
+  have hw := waitLoop_req (Spec.reqF rq.fields []) (Field.invocationsL rq.fields + 1) f rq.sched S1
+    (fun e he => hbuild e (Or.inr he))
+  rcases hwl : waitLoop (Field.invocationsL rq.fields + 1) f rq.sched S1 with ⟨w, sched', S⟩
+  rw [hwl] at h hw
+  cases w with
+  | done r' =>
+    have := hw r' rfl e he
+    cases r' with
+    | ok v => exact this
+    | err e' => exact this.mono (Mono.push _ _)
+  | stuck => simp at h
+  | outOfFuel => simp at h
+
+theorem execSerial_req (fuel : Nat) : ∀ (fields : List Field) (n i : Nat) (sched : List Nat) (S : Store),
+    ∀ v, (execSerial fuel fields n i sched S).1 = .done (.ok v) →
+      ∀ e, (e ∈ Spec.reqF fields [] ∨ Rep S.log e) → Rep (execSerial fuel fields n i sched S).2.2.log e := by
+  intro fields
+  induction fields with
+  | nil =>
+    intro n i sched S v _ e he
+    simp only [execSerial]
+    rcases he with h | h
+    · simp [Spec.reqF] at h
+    · exact h
+  | cons fld rest ih =>
+    intro n i sched S v h e he
+    cases fld with
+    | mk key nn mode rerr c =>
+      by_cases hm : mode = .tname
+      · subst hm
+        simp only [execSerial] at h ⊢
+        refine ih n (i + 1) sched _ v h e ?_
+        rcases he with he | he
+        · rcases (mem_reqF_cons _ _ _ _ _ _ _ _).mp he with h1 | h1
+          · simp [Spec.reqHead] at h1
+          · exact Or.inl h1
+        · exact Or.inr (he.mono (Mono.push _ _))
+      · rcases h1 : execField nn mode rerr c [.key key] (complete nn c [.key key]) S with ⟨f0, S1⟩
+        rcases h2 : catchIfNullable nn f0 S1 with ⟨f, S2⟩
+        have hmono : Mono S S2 := by
+          have a := execField_mono nn mode rerr c [.key key] (complete nn c [.key key]) S (fun S' => complete_mono _ _ _ _)
+          have b := catchIfNullable_mono nn f0 S1
+          rw [h1] at a; rw [h2] at b; exact a.trans b
+        have hstep := fieldStep_req [] key nn mode rerr c S S1 S2 f0 f hm
+          (fun S' => complete_req_aux.1 nn c ([] ++ [.key key]) S') h1 h2
+        rw [execSerial_cons fuel key nn mode rerr c rest n i sched S S1 S2 f0 f hm h1 h2] at h ⊢
+        -- what the wait must deliver: this field's required errors, plus e if it was given as reported
+        have hw := waitLoop_req [e] fuel f sched S2
+        rcases hwl : waitLoop fuel f sched S2 with ⟨w, sched', S3⟩
+        rw [hwl] at h hw
+        cases w with
+        | done r' =>
+          cases r' with
+          | err e' => simp [serialCont] at h
+          | ok v' =>
+            simp only [serialCont] at h ⊢
+            refine ih n (i + 1) sched' _ v h e ?_
+            rcases he with he | he
+            · rcases (mem_reqF_cons _ _ _ _ _ _ _ _).mp he with h3 | h3
+              · refine Or.inr ((hw (fun e' he' => ?_) _ rfl e (by simp)).mono (Mono.push _ _))
+                simp only [List.mem_singleton] at he'; subst he'
+                exact hstep e' h3
+              · exact Or.inl h3
+            · refine Or.inr ((hw (fun e' he' => ?_) _ rfl e (by simp)).mono (Mono.push _ _))
+              simp only [List.mem_singleton] at he'; subst he'
+              exact Or.inr (he.mono hmono)
+        | stuck => simp [serialCont] at h
+        | outOfFuel => simp [serialCont] at h
+
+theorem mutation_required (rq : Request) (hq : rq.mutation = true)
+    (v : Val) (h : (execute rq).1 = .done (.ok v)) : ∀ e ∈ Spec.reqF rq.fields [], Rep (execute rq).2.log e := by
+  intro e he
+  unfold execute at h ⊢
+  simp only [hq, if_true] at h ⊢
+  have hs := execSerial_req (Field.invocationsL rq.fields + 1) rq.fields rq.fields.length 0 rq.sched {}
+  rcases hx : execSerial (Field.invocationsL rq.fields + 1) rq.fields rq.fields.length 0 rq.sched {} with ⟨w, s', S⟩
+  rw [hx] at h hs
+  cases w with
+  | done r' =>
+    cases r' with
+    | ok v' => simp only at h ⊢; exact hs v' rfl e (Or.inl he)
+    | err e' => simp at h
+  | stuck => simp at h
+  | outOfFuel => simp at h
+
+/-- **Every required error is reported.** -/
+theorem required_reported (rq : Request) (r : Res) (h : (execute rq).1 = .done r) :
+    ∀ e ∈ Spec.required rq, e ∈ errorsOf (execute rq).2.log := by
+  intro e he
+  simp only [Spec.required] at he
+  by_cases hok : Spec.fieldsOk rq.fields [] = true
+  · simp only [hok, if_true] at he
+    cases hq : rq.mutation
+    · exact query_required rq hq hok r h e he
+    · have hspec := (execute_spec rq r h).1
+      simp only [Spec.request, hok, if_true] at hspec
+      cases r with
+      | ok v => exact mutation_required rq hq v h e he
+      | err e' => simp [Res.out] at hspec
+  · simp [hok] at he
+
+/-- The required errors do not depend on modes. -/
+theorem req_allSync_aux :
+    (∀ c : Comp, ∀ nn path, Spec.reqC nn c.allSync path = Spec.reqC nn c path ∧
+      Spec.certC c.allSync path = Spec.certC c path) ∧
+    (∀ fs : List Field, ∀ path, Spec.reqF (Field.allSyncL fs) path = Spec.reqF fs path) ∧
+    (∀ cs : List Comp, ∀ inn path i, Spec.reqL inn (Comp.allSyncL cs) path i = Spec.reqL inn cs path i) := by
+  apply Comp.allSync.mutual_induct
+    (motive_1 := fun c => ∀ nn path, Spec.reqC nn c.allSync path = Spec.reqC nn c path ∧
+      Spec.certC c.allSync path = Spec.certC c path)
+    (motive_2 := fun fs => ∀ path, Spec.reqF (Field.allSyncL fs) path = Spec.reqF fs path)
+    (motive_3 := fun cs => ∀ inn path i, Spec.reqL inn (Comp.allSyncL cs) path i = Spec.reqL inn cs path i)
+  · intro inn cs ih nn path
+    have h := spec_allSync_aux.1 (.list inn cs) nn path
+    simp only [Comp.allSync] at h
+    simp [Comp.allSync, Spec.reqC, Spec.certC, ih, h]
+  · intro fs ih nn path
+    have h := spec_allSync_aux.1 (.object fs) nn path
+    simp only [Comp.allSync] at h
+    simp [Comp.allSync, Spec.reqC, Spec.certC, ih, h]
+  · intro nn path; simp [Comp.allSync]
+  · intro s nn path; simp [Comp.allSync]
+  · intro m nn path; simp [Comp.allSync]
+  · intro inn path i; simp [Comp.allSyncL]
+  · intro c rest ih1 ih2 inn path i
+    simp [Comp.allSyncL, Spec.reqL, (ih1 inn _).1, (ih1 inn _).2, ih2, spec_allSync_aux.1]
+  · intro path; simp [Field.allSyncL]
+  · intro key nn mode rerr c rest ih1 ih2 path
+    simp only [Field.allSyncL, Spec.reqF, (ih1 nn _).1, (ih1 nn _).2, ih2, spec_allSync_aux.1]
+    cases mode <;> simp [Spec.reqHead, Mode.toSync]
+
+theorem required_allSync (rq : Request) (sched : List Nat) : Spec.required (rq.allSync sched) = Spec.required rq := by
+  simp [Spec.required, Request.allSync, spec_allSync_aux.2.1, req_allSync_aux.2.1]
+
 end ApiFu.C02
